@@ -24,7 +24,7 @@ RULE = ("two real dilated wormholes; w.dilate() on each side at a random point (
 ASSUMPTIONS = ["Noise stand-in", "convergence bound: 600 virtual seconds after the last fault (ping interval 5 s)",
                "mailbox control messages are FIFO per sender (plain real server)"]
 FLOORS = {"quick": {"probes": 100000, "connected_cases": 250, "faults": 300, "reconverged": 200},
-          "thorough": {"probes": 3000000, "connected_cases": 8000, "faults": 10000, "reconverged": 7000}}
+          "thorough": {"probes": 3000000, "connected_cases": 8000, "faults": 7000, "reconverged": 7000}}
 
 
 def cases(tier, seed, prep=None):
